@@ -38,7 +38,9 @@ func checkC02(ctx *Ctx, r *Report) {
 	c10NumberCanonical(ctx, r)
 	c02RuntimeGuard(ctx, r)
 	c02SortedSearch(ctx, r)
+	c02SortedSearchSelfTest(ctx, r)
 	c02TypedListLiterals(ctx, r)
+	c02GuardChainAgreement(ctx, r)
 }
 
 // kindConsts: the constants of ast.Kind / ast.ScalarKind.
@@ -1217,3 +1219,174 @@ func c02TypedListLiterals(ctx *Ctx, r *Report) {
 	r.Count("formatScalar calls in the Go jenny", n)
 	r.Floor("formatScalar calls in the Go jenny", 4)
 }
+
+// c02GuardChainAgreement: a loop body of the form
+//
+//	needs := A || B || …;  if !needs { continue };  if C1 {…} else if C2 {…} … else { <fallback> }
+//
+// selects with `needs` the values for which something is emitted and produces it in the chain. Every disjunct of the
+// guard that names a kind must be answered by a branch of the chain: a branch all of whose conjuncts are conjuncts of the
+// disjunct (so the disjunct implies it). Otherwise the guard lets through values only the fallback — a placeholder text —
+// answers. Disjuncts that name no kind (a default is present, an override exists) are the domain of kinds/dispatch-total.
+func c02GuardChainAgreement(ctx *Ctx, r *Report) {
+	ka := newKindAnalysis(ctx)
+	exactPred := map[string]string{}
+	for k, v := range kindOfPredicateExact {
+		exactPred[v] = k
+	}
+	n := 0
+	for _, p := range ctx.Pkgs {
+		if !strings.Contains(p.PkgPath, "/internal/jennies/") {
+			continue
+		}
+		info := p.TypesInfo
+		atom := func(e ast.Expr) (string, bool) {
+			e = ast.Unparen(e)
+			if c, ok := e.(*ast.CallExpr); ok {
+				if sel, ok := c.Fun.(*ast.SelectorExpr); ok && len(c.Args) == 0 {
+					if fn := callee(info, c); fn != nil && ka.predicates[fn.Origin()] != "" {
+						return "is:" + fn.Name() + ":" + exprString(sel.X), true
+					}
+				}
+			}
+			if be, ok := e.(*ast.BinaryExpr); ok && be.Op == token.EQL {
+				for _, pr := range [][2]ast.Expr{{be.X, be.Y}, {be.Y, be.X}} {
+					if s, ok := ast.Unparen(pr[0]).(*ast.SelectorExpr); ok && s.Sel.Name == "Kind" && namedOf(info.TypeOf(s.X)) == ka.typeT {
+						name := ""
+						switch c := ast.Unparen(pr[1]).(type) {
+						case *ast.SelectorExpr:
+							name = c.Sel.Name
+						case *ast.Ident:
+							name = c.Name
+						}
+						if k := kindOfConst[name]; k != "" && exactPred[k] != "" {
+							return "is:" + exactPred[k] + ":" + exprString(s.X), true
+						}
+					}
+				}
+			}
+			return exprString(e), false
+		}
+		var split func(e ast.Expr, op token.Token) []ast.Expr
+		split = func(e ast.Expr, op token.Token) []ast.Expr {
+			e = ast.Unparen(e)
+			if be, ok := e.(*ast.BinaryExpr); ok && be.Op == op {
+				return append(split(be.X, op), split(be.Y, op)...)
+			}
+			return []ast.Expr{e}
+		}
+		for _, f := range p.Syntax {
+			for _, d := range f.Decls {
+				fd, ok := d.(*ast.FuncDecl)
+				if !ok || fd.Body == nil {
+					continue
+				}
+				fobj, _ := info.Defs[fd.Name].(*types.Func)
+				ast.Inspect(fd.Body, func(m ast.Node) bool {
+					blk, ok := m.(*ast.BlockStmt)
+					if !ok {
+						return true
+					}
+					for i, st := range blk.List {
+						as, ok := st.(*ast.AssignStmt)
+						if !ok || as.Tok != token.DEFINE || len(as.Lhs) != 1 || len(as.Rhs) != 1 {
+							continue
+						}
+						guardVar, _ := as.Lhs[0].(*ast.Ident)
+						ds := split(as.Rhs[0], token.LOR)
+						if guardVar == nil || len(ds) < 2 || i+1 >= len(blk.List) {
+							continue
+						}
+						// `if !guard { continue / return }`
+						is, ok := blk.List[i+1].(*ast.IfStmt)
+						if !ok || is.Else != nil || !endsInExitOrPanic(info, is.Body) {
+							continue
+						}
+						un, ok := ast.Unparen(is.Cond).(*ast.UnaryExpr)
+						if !ok || un.Op != token.NOT {
+							continue
+						}
+						if id, ok := ast.Unparen(un.X).(*ast.Ident); !ok || objOf(info, id) != objOf(info, guardVar) {
+							continue
+						}
+						// the chain: the first if statement after the guard with at least three branches and a final else
+						var branches [][]ast.Expr
+						var chainPos token.Pos
+						for _, later := range blk.List[i+2:] {
+							c, ok := later.(*ast.IfStmt)
+							if !ok {
+								continue
+							}
+							var conds [][]ast.Expr
+							cur := c
+							closed := false
+							for cur != nil {
+								conds = append(conds, split(cur.Cond, token.LAND))
+								switch e := cur.Else.(type) {
+								case *ast.IfStmt:
+									cur = e
+								case *ast.BlockStmt:
+									closed = true
+									cur = nil
+								default:
+									cur = nil
+								}
+							}
+							if closed && len(conds) >= 3 {
+								branches, chainPos = conds, c.Pos()
+								break
+							}
+						}
+						if branches == nil {
+							continue
+						}
+						_ = chainPos
+						for _, dj := range ds {
+							cj := split(dj, token.LAND)
+							have := map[string]bool{}
+							kindful := false
+							for _, c := range cj {
+								a, isKind := atom(c)
+								have[a] = true
+								kindful = kindful || isKind
+							}
+							if !kindful {
+								continue
+							}
+							n++
+							answered := ""
+							for _, br := range branches {
+								all := true
+								for _, c := range br {
+									a, _ := atom(c)
+									if !have[a] {
+										all = false
+										break
+									}
+								}
+								if all {
+									var parts []string
+									for _, c := range br {
+										parts = append(parts, exprString(c))
+									}
+									answered = strings.Join(parts, " && ")
+									break
+								}
+							}
+							r.Check(answered != "", "kinds/guard-chain-agreement", fmt.Sprintf("%s guard %s: %s", ctx.FuncName(fobj), guardVar.Name, exprString(dj)), dj.Pos(),
+								"answered by the branch `"+answered+"`",
+								fmt.Sprintf("%s lets a value through with `%s`, but no branch of the chain that follows is implied by it: such a value reaches the chain's final else (a placeholder text written into the generated code while the run reports success)", ctx.FuncName(fobj), exprString(dj)))
+						}
+					}
+					return true
+				})
+			}
+		}
+	}
+	r.Count("kind-naming guard disjuncts matched against their chain", n)
+	r.Floor("kind-naming guard disjuncts matched against their chain", 1)
+}
+
+// predicates of ast.Type that are exactly `Kind == K`
+var kindOfPredicateExact = map[string]string{"IsStruct": "struct", "IsEnum": "enum", "IsScalar": "scalar", "IsArray": "array", "IsMap": "map", "IsRef": "ref",
+	"IsDisjunction": "disjunction", "IsIntersection": "intersection", "IsComposableSlot": "composable_slot", "IsConstantRef": "constant_ref"}
